@@ -130,6 +130,11 @@ func (module *InMemoryStorage) Configure(name, configRoot string) {
 	module.minDistance = viper.GetInt64(configRoot + ".min-distance")
 	module.queueDepth = viper.GetInt(configRoot + ".queue-depth")
 
+	// Start creates one channel and one goroutine per worker, and every request is handed to one of them
+	if module.numWorkers < 1 {
+		panic("Storage module '" + name + "' must be configured with at least one worker")
+	}
+
 	module.requestChannel = make(chan *protocol.StorageRequest, module.queueDepth)
 	module.workersRunning = sync.WaitGroup{}
 	module.mainRunning = sync.WaitGroup{}
